@@ -55,6 +55,7 @@ type Sink struct {
 	classes   map[string]int
 	samples   []any
 	records   []string
+	Prelude   string // optional vernacular written at the top of every shard (definitions shared by the cases)
 }
 
 func NewSink(dir, name, typ string, shard int) *Sink {
@@ -90,6 +91,7 @@ func (s *Sink) Close() error {
 			return err
 		}
 		w := bufio.NewWriter(f)
+		w.WriteString(s.Prelude)
 		nch := 0
 		for c := off; c < end || nch == 0; c += 50 {
 			e := c + 50
